@@ -55,7 +55,7 @@ pub fn pool_for(property: &str) -> Option<Pool> {
         },
         "C11" => Pool {
             property: "C11",
-            methods: by(&|m| m.unmockable),
+            methods: by(&|m| m.unmockable || m.refuses),
             mock_handle: true,
             alloc_oracle: false,
             history_oracle: true,
@@ -182,6 +182,7 @@ pub struct Stats {
     pub moved_args_conserved: u64,
     pub lookups: u64,
     pub create_and_drop_calls: u64,
+    pub refused_calls: u64,
     pub threaded_runs: u64,
     pub sync_segments_interleaved: u64,
 }
@@ -222,6 +223,7 @@ impl Stats {
         self.moved_args_conserved += o.moved_args_conserved;
         self.lookups += o.lookups;
         self.create_and_drop_calls += o.create_and_drop_calls;
+        self.refused_calls += o.refused_calls;
         self.threaded_runs += o.threaded_runs;
         self.sync_segments_interleaved += o.sync_segments_interleaved;
     }
@@ -267,6 +269,9 @@ impl Stats {
                         *self.method_calls.entry(*method).or_default() += 1;
                         if *flavor == 1 {
                             self.create_and_drop_calls += 1;
+                        }
+                        if *flavor == 2 {
+                            self.refused_calls += 1;
                         }
                     }
                     depth[t] += 1;
@@ -389,7 +394,9 @@ pub fn evaluate(plan: &Plan, apps: &Apps, pool: &Pool, twin: bool, stats: Option
     }
     let mut twin_misaligned = false;
     let mut twin_ran = false;
-    if twin && v.is_empty() {
+    // a refused call has no Impl<T>-path counterpart to compare with
+    let refusing = plan.tasks.iter().any(|t| t.app == 2 && t.calls.iter().any(|c| MODEL[c.method as usize].refuses));
+    if twin && v.is_empty() && !refusing {
         let r2 = exec::run(plan, apps, 1, false);
         twin_ran = true;
         let static_task: Vec<bool> = plan
@@ -763,6 +770,7 @@ fn coverage_json(property: &str, pool: &Pool, s: &mut Stats, samples: Vec<Value>
         "original_functions_entered": s.functions_entered,
         "provider_lookups": s.lookups,
         "create_and_drop_calls": s.create_and_drop_calls,
+        "calls_that_must_be_refused (not un-mockable, partial mock)": s.refused_calls,
         "threaded_runs (sync tasks on parked OS threads)": s.threaded_runs,
         "threaded_runs_with_two_or_more_sync_calls_in_flight": s.sync_segments_interleaved,
         "tasks": {"total": s.tasks, "completed": s.tasks_completed, "cancelled": s.tasks_cancelled, "panicked": s.tasks_panicked},
